@@ -119,6 +119,7 @@ HNext == /\ Len(tail) < MaxTail
          /\ (Len(prefix) > 3 /\ Menu = "C08" => Len(tail) < 2)                  \* the long prefix (unhashable directory): tails of at most 2 steps
          /\ \E s \in TailMenu :
               /\ (Menu = "C02" => tail = <<>>)                                   \* exactly one faulty run, then the follow-up run
+              /\ (s.fault.at = "A1" => flavour.variant = "alias")                \* only that fixture variant declares the alias A1
               /\ tail' = Append(tail, s)
          /\ UNCHANGED <<layout, behs, prefix, flavour>>
 
